@@ -490,7 +490,7 @@ pub fn property(_tier: Tier) -> Property {
         parts: vec![Box::new(RandomPart {
             name: "histories",
             rule: "proptest: 1-6 commands, each an arbitrary (near-miss biased) name and 0-10 add_argument calls over every Argument type incl. a raw-bytes renderer, Tag::Other and Filter values with LF at first/middle/last position; then sent alone and as a CommandList assembled by add/command/extend; non-trivial = a command with >=1 rejected and >=1 accepted argument, or a name within edit distance 2 of a list keyword; distinct by serialised case",
-            cases: (100_000, 20_000_000),
+            cases: (100_000, 8_000_000),
             strategy: Box::new(strategy),
             check: Box::new(check),
         }), Box::new(RandomPart {
